@@ -296,6 +296,24 @@ func genHistory(rng *rand.Rand, nU int) []opRec {
 				hist = append(hist, opRec{Op: "set", Mode: "pin", Root: r, Chunks: []int{3 + rng.Intn(nU-3)}})
 			}
 		}
+		if rng.Intn(2) == 0 {
+			// while the cache is still over its capacity: operations that lower the cache counter
+			// (pin or removal of a chunk cached above, under its file or without context)
+			var cached []opRec
+			for _, h := range hist {
+				if h.Op == "put" {
+					cached = append(cached, h)
+				}
+			}
+			for k := 0; k <= rng.Intn(2); k++ {
+				h := cached[rng.Intn(len(cached))]
+				root := h.Root
+				if rng.Intn(4) == 0 {
+					root = -1
+				}
+				hist = append(hist, opRec{Op: "set", Mode: []string{"pin", "remove"}[rng.Intn(2)], Root: root, Chunks: []int{h.Chunks[0]}})
+			}
+		}
 		for r := 0; r <= rng.Intn(3); r++ {
 			hist = append(hist, opRec{Op: "collect", Root: -1})
 		}
